@@ -253,7 +253,7 @@ func (v *vdrRun) forkDisk(f *core.VerifVdrFork, tree map[string]vdrEnt, useEver 
 		} else if f.Split && strings.HasPrefix(job, "chnk") {
 			kind = "c"
 		}
-		parts = append(parts, fmt.Sprintf("%s:%d:%s", hx(path.Join(v.psdir, rel)), src[rel].Size, kind))
+		parts = append(parts, fmt.Sprintf("%s:%d:%s", hx(path.Join(v.psdir, rel)), sizeAsWalked(rel, src[rel]), kind))
 	}
 	if len(parts) == 0 {
 		return "."
